@@ -99,6 +99,8 @@ def run(cx, tier='quick'):
                 rep.bad('TPL-PARSE', t.fn.qname, 'scalar-template', 'template parses in no syntactic category', t.file, t.line, {'template': t.text()[:300]})
             else:
                 rep.ok('TPL-PARSE', '%s|scalar|%s|%s' % (t.fn.qname, S_sha(t.text()), c))
+    from .helpers import check_ident_or_index
+    check_ident_or_index(cx, rep)
     rep.floor('TPL-PARSE', 200, '(276 templates today)')
     rep.floor('TPL-OPT', 5, '(9 optional-hole positions today)')
     rep.floor('TPL-ARITY', 40)
